@@ -62,7 +62,7 @@ def run(rep, tier, seed, rng):
             npairs += len(inputs) - len(set(inputs))
         if r["tags"] & {"crash", "rc", "predicted-panic"}:
             ndis += 1
-            rep.violation("model and implementation disagree: " + "; ".join(r["dis"])[:400], gen_common.replay_data(r), found_input=False)
+            rep.violation("model and implementation disagree: " + "; ".join(r["dis"])[:400], gen_common.replay_data(r), found_input=("crash" in r["tags"]))
         elif r["impl_parsed"] and r["model_parsed"] and mc.compile_view(r["impl_parsed"]) != mc.compile_view(r["model_parsed"]):
             ndis += 1
             rep.violation("compile statements (source, rule, object path) differ from the model", gen_common.replay_data(r),
